@@ -1248,6 +1248,10 @@ func runC02recvModes(cfg config, rep *hx.Report, cf *hx.CasesFile, n int, modes 
 		rep.Count(fmt.Sprintf("recv-result:%d", res.res))
 		desc := map[string]any{"id": c.id, "seed": c.seed, "mode": mode, "cs": c.cs, "streams": c.streams, "resume": c.resume, "files": len(c.files), "fault": res.fault, "events": res.evs}
 		rep.CaseIndex[fmt.Sprint(c.id)] = desc
+		if strings.Contains(res.desync, "woken reader did not reach") && mode == "honest" {
+			rep.Violate("deadlock:reader-never-woken", fmt.Sprintf("the reader of a data stream waited for a file whose FileBegin the main loop had already handled and was never woken (case %d)", c.id), desc)
+			continue
+		}
 		if res.desync != "" {
 			rep.Violate("harness-desync", fmt.Sprintf("receiver driver lost track of the real receiver (%s): case %d", res.desync, c.id), desc)
 			continue
